@@ -95,7 +95,8 @@ def cases(tier, seed):
     progs = [t for t in base_programs(tier, with_cont=False) if "p" not in re.findall(r"[a-z]+", t)]
     progs = [t for t in progs if "x0" not in t]
     step = 3 if tier == "quick" else 1
-    for text in progs[::step]:
+    seed_set = set(gen.SEEDS)
+    for text in [t for i, t in enumerate(progs) if i % step == 0 or t in seed_set]:
         vs = [v for v in gen.goals_for(text, 1, 3) if v in ("x", "y", "c")]
         monos = vs[:2] + (["%s*%s" % (vs[0], vs[1])] if len(vs) >= 2 and tier != "quick" else [])
         if not monos:
@@ -206,6 +207,10 @@ def run_program(case):
         raw = [{k: sum(p * v ** k for v, p in l.items()) for k in range(0, kmax + 1)} for l in laws]
 
         def judge(sub, sol, truth_fn, kfrom=0):
+            if any(str(sy).startswith("_prob") for sy in sol.free_symbols):
+                # result expressed through the probability of an abstracted condition: not judged here (C01 / C02 substitute it)
+                stats["abstraction_results_not_judged"] = stats.get("abstraction_results_not_judged", 0) + 1
+                return
             kmaxc = max(N, polar.own_max_case(sol) + 1)
             for n in range(min(kmaxc, N) + 1):
                 t = truth_fn(n)
